@@ -325,6 +325,18 @@ def byte_snapshot(root):
     return out
 
 
+def stat_signature(root):
+    """cheap change detector: names + lstat identity of every entry (no file is opened)."""
+    out = []
+    for dp, dns, fns in os.walk(root):
+        for n in dns + fns:
+            p = os.path.join(dp, n)
+            st = os.lstat(p)
+            out.append((p, st.st_mode, st.st_ino, st.st_size, st.st_mtime_ns, st.st_ctime_ns))
+    out.sort()
+    return out
+
+
 def in_child(fn, *args):
     """run fn in a forked child (so os.chdir never touches the worker / driver process)."""
     r, w = os.pipe()
@@ -377,8 +389,8 @@ def make_queries(root, rng, fixed):
         targets.append(os.path.join(d, ghost_id) if d else ghost_id)
         if os.path.basename(d) == "workspace" or True:
             targets.append(os.path.join(d, ghost_id, "sub") if d else os.path.join(ghost_id, "sub"))
-    if len(targets) > 26 and not fixed:
-        keep = set(rng.sample(range(len(targets)), 26))
+    if len(targets) > 14 and not fixed:
+        keep = set(rng.sample(range(len(targets)), 14))
         targets = [t for i, t in enumerate(targets) if i in keep]
     for t in targets:
         ab = os.path.join(root, t) if t else root
@@ -419,6 +431,7 @@ def run_queries(root, pristine, queries):
     import signac
 
     before = byte_snapshot(root)
+    sig = stat_signature(root)
     out = []
     for (kind, arg), cwd, path in queries:
         cw = os.path.join(root, cwd) if cwd else root
@@ -437,14 +450,19 @@ def run_queries(root, pristine, queries):
         except Exception as e:
             res = ("err", exn_name(e), type(e).__name__)
         os.chdir(os.path.dirname(root))
-        after = byte_snapshot(root)
+        after = before
+        touched = stat_signature(root) != sig     # nothing was created, removed or written otherwise
+        if touched:
+            after = byte_snapshot(root)
         changed = after != before
         post = None
         if changed:
             post = coq_node(root)
+        if touched:
             shutil.rmtree(root)
             shutil.copytree(pristine, root, symlinks=True)
             assert byte_snapshot(root) == before
+            sig = stat_signature(root)
         out.append({"kind": kind, "arg": arg, "cwd": real_cwd, "path": path if path is not None else real_cwd,
                     "none": path is None, "res": res, "changed": changed, "post": post,
                     "diff": [r for r in sorted(set(after) ^ set(before))][:6] if changed else []})
